@@ -1,7 +1,7 @@
 /-
 C07 — external-data layout is well formed; save restores the model (property theorems).
-Model: `IrVerif/Model/Layout.lean`; helper lemmas: `IrVerif/Lemmas/Layout*.lean`.
-Core Lean only.
+Models: `IrVerif/Model/Layout.lean`, `Model/LayoutSt.lean`, `Model/LayoutSeq.lean` (+ `Model/Pack.lean` and
+`Props/C04.lean`, read-only); helper lemmas: `IrVerif/Lemmas/Layout*.lean`.  Core Lean only.
 
 What is claimed for which backend:
 * raw data files: offsets (order, disjointness, alignment, file size), sharding, shard names,
@@ -9,15 +9,28 @@ What is claimed for which backend:
   externalised tensor from the written files (`C07_roundtrip`, `C07_roundtrip_value`), order
   independence of the writes, restoration of the model at every failure point;
 * safetensors: sharding, shard names, classification by threshold (shard and length of every
-  record), restoration of the model.  The layout INSIDE a safetensors file is the library's:
-  there is no offset or read-back theorem for that backend (`placeSt` records offset 0); the
-  harness oracle checks non-overlap, containment and payload bytes on every generated case.
+  record), restoration of the model; since the deepening round also the container itself
+  (`Model/LayoutSt.lean`: the writer's order, contiguous `data_offsets`, header JSON, file image,
+  `_read_safetensors`, `_replace_tensors` by name, dtype tables): exact cover, non-overlap,
+  containment, order, read-back of every entry (`C07_st_readback`) and of every saved value after
+  re-pointing by name (`C07_st_roundtrip`), dtype/shape round trip (`C07_st_dtype_roundtrip`).
+  The container format is the LIBRARY's: it is modelled and compared with the real library byte
+  for byte on every run, not verified.  `placeSt`/`unloadSt` (offset 0) remain as the
+  classification-level model of the older theorems.
+* both: the `finally` restore loop step by step through the `const_value` setter
+  (`C07_model_restored_checked`, `C07_restore_stops`), `nbytes = len(tobytes())` imported from C04
+  (`C07_roundtrip_value_c04`), shared tensor objects (`C07_readback_shared`), call sequences
+  save / load / load_to_model / unload_from_model / convert_tensors_from_external
+  (`C07_sequence_preserves`, `C07_sequence_save_load`, raw backend instance `C07_rawBackend_ok`).
 `readAt`/`writeAt` are the model of file reads and writes; they are compared with real files and
 with `ExternalTensor.tobytes()` of the reloaded model through `layout.image` / `layout.read`.
 -/
 import IrVerif.Lemmas.Layout
 import IrVerif.Lemmas.LayoutNames
 import IrVerif.Lemmas.LayoutSave
+import IrVerif.Lemmas.LayoutSt
+import IrVerif.Lemmas.LayoutSeq
+import IrVerif.Props.C04
 namespace IrVerif.Layout
 
 /-! ## Offsets in one data file -/
@@ -1192,5 +1205,479 @@ example : shardFilename "d/m.fp16.data".toList 3 12 none = "d/m-00003-of-00012.f
 example : (unloadRaw [⟨10, false, true, false⟩, ⟨300, false, true, false⟩, ⟨5, true, true, false⟩] 256 none none 0) =
     [.same, .external ⟨0, 1, 0, 300⟩, .memory] := by decide
 example : (saveRun (fun v => some v) (rawPlan [⟨10, false, true, false⟩, ⟨300, false, true, false⟩] 256 100) none).1 1 = some 101 := by decide
+
+end IrVerif.Layout
+
+/-! # Deepening round: safetensors container, restore loop, C04 import, shared objects, call sequences -/
+
+namespace IrVerif.Layout
+open IrVerif.TensorRepr (DType)
+
+/-- **C07_st_cover** (exact cover): in header order the `data_offsets` are contiguous — the first
+    range starts at 0, every range starts where the previous one stopped, the last one stops at
+    the end of the byte buffer — and entry `i` records the name and the byte count of tensor `i`
+    of the writing order. -/
+theorem C07_st_cover (vs : List StView) :
+    (∀ p ∈ List.zip (0 :: (stEntries vs).map (·.stop)) (stEntries vs), p.2.start = p.1) ∧
+    ((stEntries vs).map (·.stop)).getLast?.getD 0 = (stBuffer vs).length ∧
+    (stEntries vs).map (fun e => e.stop - e.start) = vs.map (·.bytes.length) ∧
+    (stEntries vs).map (·.name) = vs.map (·.name) := by
+  refine ⟨entriesFrom_chain 0 vs, ?_, entriesFrom_lens 0 vs, entriesFrom_names 0 vs⟩
+  simpa [stEntries] using entriesFrom_last 0 vs
+
+/-- **C07_st_disjoint**: no two recorded ranges overlap (every range ends before every later one
+    starts). -/
+theorem C07_st_disjoint (vs : List StView) :
+    (stEntries vs).Pairwise (fun a b => a.stop ≤ b.start) := entriesFrom_disjoint 0 vs
+
+/-- **C07_st_within**: every recorded range lies inside the byte buffer, the file is exactly
+    `8 + N + buffer` bytes long, and the `(offset, length)` `_read_safetensors` derives from an
+    entry lies inside the file — for any header bytes (`N = hdr.length`). -/
+theorem C07_st_within (vs : List StView) (hdr : List Nat) :
+    (∀ e ∈ stEntries vs, e.start ≤ e.stop ∧ e.stop ≤ (stBuffer vs).length) ∧
+    (stFileOf hdr (stBuffer vs)).length = 8 + hdr.length + (stBuffer vs).length ∧
+    (∀ e ∈ stEntries vs, 8 + hdr.length ≤ (stRange hdr.length e).1 ∧
+      (stRange hdr.length e).1 + (stRange hdr.length e).2 ≤ (stFileOf hdr (stBuffer vs)).length) := by
+  refine ⟨fun e he => ⟨(entriesFrom_ge 0 vs e he).2, by simpa using entriesFrom_le_end 0 vs e he⟩,
+    stFileOf_length _ _, ?_⟩
+  intro e he
+  have h1 := (entriesFrom_ge 0 vs e he).2
+  have h2 := entriesFrom_le_end 0 vs e he
+  rw [stFileOf_length]
+  simp only [stRange]
+  omega
+
+/-- **C07_st_order**: the writing order of a shard is a permutation of its tensors (nothing lost
+    or duplicated) sorted by descending format dtype and then ascending name. -/
+theorem C07_st_order (ts : List StTensor) :
+    (shardViewsD ts).Perm (ts.map viewOfD) ∧
+    (shardViewsD ts).Pairwise (fun a b =>
+      b.sd.rank ≤ a.sd.rank ∧ (a.sd.rank = b.sd.rank → bytesLe a.name b.name = true)) := by
+  refine ⟨sortViews_perm _, (sortViews_sorted _).imp ?_⟩
+  intro a b h
+  simp only [viewLe, Bool.or_eq_true, Bool.and_eq_true, decide_eq_true_eq] at h
+  rcases h with h | ⟨h1, h2⟩
+  · exact ⟨by omega, fun e => by omega⟩
+  · exact ⟨by omega, fun _ => h2⟩
+
+/-- **C07_st_readback**: for any header bytes, reading the `(offset, length)` that
+    `_read_safetensors` derives from entry `i` (`begin + N + 8`, `end - begin`) out of the written
+    file returns exactly the bytes of tensor `i` of the writing order. -/
+theorem C07_st_readback (vs : List StView) (hdr : List Nat) :
+    ∀ p ∈ (stEntries vs).zip vs,
+      readAt (stFileOf hdr (stBuffer vs)) (stRange hdr.length p.1).1 (stRange hdr.length p.1).2
+        = p.2.bytes := by
+  intro p hp
+  have := entriesFrom_readback (8 + hdr.length) 0 vs (Pack.leBytes 8 hdr.length ++ hdr)
+    (by simp [IrVerif.Pack.leBytes_length]) p hp
+  simp only [stRange, stFileOf]
+  rw [show p.1.start + hdr.length + 8 = p.1.start + (8 + hdr.length) by omega]
+  exact this
+
+/-- the names `_replace_tensors` meets over all files are the saved names, each once -/
+theorem stAssignments_names (saved : List StTensor) (mx : Option Nat) :
+    ((stAssignments (stShardViewsD saved mx)).map (·.1)).Perm (saved.map (·.name)) := by
+  unfold stShardViewsD
+  split
+  · rename_i h; subst h; exact List.Perm.refl _
+  · have hflat := (C07_shards_partition_st (fun t : StTensor => t.bytes.length) mx saved).1
+    generalize shardSt (fun t : StTensor => t.bytes.length) mx saved = S at hflat
+    have h1 : (stAssignments (S.map shardViewsD)).map (·.1) =
+        S.flatMap (fun sh => (shardViewsD sh).map (·.name)) := by
+      unfold stAssignments
+      rw [List.map_flatMap, ← List.flatMap_map shardViewsD (fun vs => vs.map (·.name)) S,
+        ← zipIdx_flatMap_fst (S.map shardViewsD) 0 (fun vs => vs.map (·.name))]
+      simp only [List.flatMap_def]
+      congr 1
+      apply List.map_congr_left
+      intro p _
+      rw [List.map_map]
+      have := entriesFrom_names 0 p.1
+      simpa [stEntries, Function.comp_def] using this
+    rw [h1, ← hflat]
+    have h2 : (S.flatten).map (·.name) = S.flatMap (fun sh => sh.map (·.name)) := by
+      rw [List.map_flatten, List.flatMap_def]
+    rw [h2]
+    apply perm_flatMap_left
+    intro sh _
+    have := (sortViews_perm (sh.map viewOfD)).map (·.name)
+    simpa [shardViewsD, viewOfD, Function.comp_def] using this
+
+/-- **C07_st_roundtrip**: a whole `_save_file` + `_replace_tensors`.  For every list of tensors to
+    save whose (initializer) names are pairwise different — the check `save_safetensors` performs up
+    front — every shard limit and every saved position `j`: after the files are written and the
+    values are re-pointed BY NAME, value `j` holds a record `(shard, offset, length)` that names one
+    of the written files, has the tensor's byte count, and reading `(offset, length)` from that file
+    returns exactly the bytes of tensor `j`. -/
+theorem C07_st_roundtrip (saved : List StTensor) (mx : Option Nat)
+    (hd : (saved.map (·.name)).Nodup) (j : Nat) (hj : j < saved.length) :
+    ∃ p img,
+      (stReplace (saved.map (·.name)) (stAssignments (stShardViewsD saved mx)))[j]? = some (some p) ∧
+      ((stShardViewsD saved mx).map stFile)[p.shard]? = some img ∧
+      p.total = (stShardViewsD saved mx).length ∧
+      p.length = saved[j].bytes.length ∧
+      readAt img p.offset p.length = saved[j].bytes := by
+  have hnames := stAssignments_names saved mx
+  have hAnodup : ((stAssignments (stShardViewsD saved mx)).map (·.1)).Nodup :=
+    (hnames.nodup_iff).mpr hd
+  have hne : saved ≠ [] := by intro h; subst h; simp at hj
+  have hsh : stShardViewsD saved mx =
+      (shardSt (fun t : StTensor => t.bytes.length) mx saved).map shardViewsD := by
+    unfold stShardViewsD; rw [if_neg hne]
+  have hflat := (C07_shards_partition_st (fun t : StTensor => t.bytes.length) mx saved).1
+  generalize hS : shardSt (fun t : StTensor => t.bytes.length) mx saved = S at hsh hflat
+  -- the shard holding tensor j
+  have hmem : saved[j] ∈ S.flatten := by rw [hflat]; exact List.getElem_mem hj
+  obtain ⟨sh, hshS, htsh⟩ := List.mem_flatten.mp hmem
+  obtain ⟨i, hi, hSi⟩ := List.getElem_of_mem hshS
+  have hvs : (stShardViewsD saved mx)[i]? = some (shardViewsD sh) := by
+    rw [hsh, List.getElem?_map, List.getElem?_eq_getElem hi, hSi]; rfl
+  -- its view and entry
+  have hv : viewOfD saved[j] ∈ shardViewsD sh :=
+    (sortViews_perm _).mem_iff.mpr (List.mem_map.mpr ⟨_, htsh, rfl⟩)
+  obtain ⟨q, hq, hvq⟩ := List.getElem_of_mem hv
+  have hqe : q < (stEntries (shardViewsD sh)).length := by
+    simpa [stEntries, entriesFrom_length] using hq
+  have hzip : ((stEntries (shardViewsD sh))[q], viewOfD saved[j]) ∈
+      (stEntries (shardViewsD sh)).zip (shardViewsD sh) := by
+    rw [List.mem_iff_getElem]
+    refine ⟨q, by simp [List.length_zip]; omega, ?_⟩
+    simp [List.getElem_zip, hvq]
+  generalize he : (stEntries (shardViewsD sh))[q] = e at hzip
+  have hemem : e ∈ stEntries (shardViewsD sh) := he ▸ List.getElem_mem hqe
+  have hz := entriesFrom_zip 0 _ _ hzip
+  have hread := C07_st_readback (shardViewsD sh) (stHeader (stEntries (shardViewsD sh))) _ hzip
+  simp only at hz hread
+  -- the assignment of that entry
+  let pl : Placement := ⟨i, (stShardViewsD saved mx).length,
+    (stRange (stHeader (stEntries (shardViewsD sh))).length e).1,
+    (stRange (stHeader (stEntries (shardViewsD sh))).length e).2⟩
+  have haA : (e.name, pl) ∈ stAssignments (stShardViewsD saved mx) := by
+    unfold stAssignments
+    rw [List.mem_flatMap]
+    refine ⟨(shardViewsD sh, i), List.mem_zipIdx_iff_getElem?.mpr hvs, ?_⟩
+    exact List.mem_map.mpr ⟨e, hemem, rfl⟩
+  have hname : e.name = (saved.map (·.name))[j]'(by simpa using hj) := by
+    rw [hz.1]; simp [viewOfD]
+  have hlast : lastIdxOf (saved.map (·.name)) e.name = some j := by
+    rw [hname]; exact lastIdxOf_nodup _ hd j (by simpa using hj)
+  have hget := foldl_replace_get (saved.map (·.name)) (stAssignments (stShardViewsD saved mx))
+    (List.replicate (saved.map (·.name)).length none) j (by simpa using hj) pl
+    ⟨_, haA, hlast⟩
+    (by
+      intro c hc hfc
+      obtain ⟨_, hcn⟩ := lastIdxOf_some _ _ _ hfc
+      have : c.1 = (e.name, pl).1 := by rw [← hcn, hname]
+      have := nodup_map_inj (·.1) _ hAnodup c hc _ haA this
+      rw [this])
+  refine ⟨pl, stFile (shardViewsD sh), by rw [stReplace_eq]; exact hget, ?_, rfl, ?_, ?_⟩
+  · have hpi : pl.shard = i := rfl
+    rw [hpi, List.getElem?_map, hvs]; rfl
+  · have hpl : pl.length = e.stop - e.start := rfl
+    rw [hpl, hz.2]; simp [viewOfD]
+  · have hread' : readAt (stFile (shardViewsD sh)) pl.offset pl.length = (viewOfD saved[j]).bytes := hread
+    simpa [viewOfD] using hread'
+
+/-- the finite table behind `C07_st_dtype_roundtrip`, closed by evaluation -/
+theorem st_dtype_table (d : DType) (sd : StDtype) : stDtypeOf d = some sd →
+    (d ∈ migrated ∨ (stToIr.lookup sd.headerName = some d ∧ sd ≠ StDtype.F4 ∧
+        8 ≤ d.bitwidth.getD 8)) := by
+  cases d <;> cases sd <;> decide
+
+/-- **C07_st_dtype_roundtrip**: for every ONNX dtype that has an entry in the save table, the
+    tensor a value holds after `_replace_tensors` reports the ORIGINAL dtype and shape: the header
+    dtype string maps back to it and the header shape is the tensor's shape, or (FLOAT8E4M3FNUZ,
+    FLOAT8E5M2FNUZ, FLOAT4E2M1, INT4, UINT4, INT2, UINT2: stored as bytes)
+    `_migrate_tensor_shape_dtype` takes both from the model tensor.  The other dtypes (UNDEFINED,
+    STRING, COMPLEX128) have no table entry: the save raises (`dtypesOk`). -/
+theorem C07_st_dtype_roundtrip (t : StTensor) (sd : StDtype) (h : stDtypeOf t.dtype = some sd)
+    (cur : Nat) :
+    reloadedDtypeShape t ⟨t.name, sd, headerShape sd (storageShape t), cur, cur + t.bytes.length⟩
+      = some (t.dtype, t.shape) := by
+  have htab := st_dtype_table t.dtype sd h
+  unfold reloadedDtypeShape
+  rcases htab with hm | ⟨hl, hf4, hbw⟩
+  · rw [if_pos hm]
+  · by_cases hm : t.dtype ∈ migrated
+    · rw [if_pos hm]
+    · rw [if_neg hm]
+      simp only [hl, Option.map_some]
+      have : headerShape sd (storageShape t) = t.shape := by
+        unfold headerShape storageShape
+        rw [if_neg hf4]
+        cases hb : t.dtype.bitwidth with
+        | none => rfl
+        | some bw =>
+          rw [hb] at hbw
+          simp only [Option.getD_some] at hbw
+          simp only
+          rw [if_neg (by omega)]
+      rw [this]
+
+-- non-vacuity / witnesses
+example : (shardViewsD [⟨[0x62], .float, [1], [1, 2, 3, 4]⟩, ⟨[0x61], .uint8, [2], [9, 9]⟩,
+    ⟨[0x61, 0x30], .float, [1], [5, 6, 7, 8]⟩]).map (·.name) = [[0x61, 0x30], [0x62], [0x61]] := by decide
+
+example : stEntries (shardViewsD [⟨[0x62], .float, [1], [1, 2, 3, 4]⟩, ⟨[0x61], .uint8, [2], [9, 9]⟩]) =
+    [⟨[0x62], .F32, [1], 0, 4⟩, ⟨[0x61], .U8, [2], 4, 6⟩] := by decide
+
+-- the name hypothesis of C07_st_roundtrip is needed: with a duplicated name the first value is
+-- never re-pointed (`value_map` keeps the last value of a name)
+example : (stReplace [[0x61], [0x61]] (stAssignments (stShardViewsD
+    [⟨[0x61], .uint8, [1], [1]⟩, ⟨[0x61], .uint8, [1], [2]⟩] none)))[0]? = some none := by decide
+
+example : stNamesOk [[0x61], [0x61]] = false ∧ stNamesOk [asciiBytes "__metadata__"] = false ∧
+    stNamesOk [[0x61], [0x62]] = true := by decide
+
+example : stDtypeOf .complex128 = none ∧ stDtypeOf .string = none ∧ stDtypeOf .int4 = some .U8 := by decide
+
+/-- **C07_model_restored_checked**: the `finally` block modelled as the loop it is, every
+    assignment going through the `const_value` setter (which in `onnx_ir.DEBUG` mode raises for an
+    object that is not a `TensorProtocol` instance).  If every original `const_value` passes the
+    setter's check — always true outside DEBUG mode (`C07_setter_nodebug`) — then for every
+    initializer list, threshold, store and every point at which the `try` block is left, the
+    `finally` does not raise and every value holds its original tensor object, for both backends. -/
+theorem C07_model_restored_checked (vs : List Init) (thr : Int) (fresh : Nat) (st : Store)
+    (stop : Option Nat) (debug : Bool) (isProto : Nat → Bool)
+    (hok : ∀ v, setterOk debug isProto (st v) = true) :
+    (saveRunChecked debug isProto st (rawPlan vs thr fresh) stop).2 = (st, false) ∧
+    (saveRunChecked debug isProto st (stPlan vs thr fresh) stop).2 = (st, false) := by
+  have h := C07_model_restored vs thr fresh st stop
+  constructor
+  · simp only [saveRunChecked]
+    rw [restoreLoop_ok _ _ _ _ (by intro p hp; simp only [List.mem_map] at hp; obtain ⟨v, _, rfl⟩ := hp; exact hok v)]
+    exact Prod.ext h.1 rfl
+  · simp only [saveRunChecked]
+    rw [restoreLoop_ok _ _ _ _ (by intro p hp; simp only [List.mem_map] at hp; obtain ⟨v, _, rfl⟩ := hp; exact hok v)]
+    exact Prod.ext h.2 rfl
+
+theorem C07_setter_nodebug (isProto : Nat → Bool) (t : Option Nat) : setterOk false isProto t = true := rfl
+
+/-- **C07_restore_stops**: what the `finally` does when the restore of an element raises: for
+    EVERY position of the first original tensor the setter rejects (snapshot = `pre ++ v :: post`),
+    the loop raises there, exactly the values of `pre` have been put back, and every other value
+    cell holds what it held when the `try` block was left (so values of `v :: post` that the save
+    re-pointed stay re-pointed: observation D430). -/
+theorem C07_restore_stops (debug : Bool) (isProto : Nat → Bool) (st : Store) (plan : SavePlan)
+    (stop : Option Nat) (pre : List Nat) (v : Nat) (post : List Nat)
+    (hsnap : plan.snapshot = pre ++ v :: post)
+    (hpre : ∀ w ∈ pre, setterOk debug isProto (st w) = true)
+    (hbad : setterOk debug isProto (st v) = false) :
+    (saveRunChecked debug isProto st plan stop).2 =
+      (assignAll (saveRunChecked debug isProto st plan stop).1 (pre.map fun w => (w, st w)), true) := by
+  simp only [saveRunChecked, hsnap, List.map_append, List.map_cons]
+  exact restoreLoop_stops _ _ _ _ _ _
+    (by intro p hp; simp only [List.mem_map] at hp; obtain ⟨w, hw, rfl⟩ := hp; exact hpre w hw) hbad
+
+-- the hypothesis of C07_model_restored_checked is needed: DEBUG mode, object 7 is duck-typed
+example : (saveRunChecked true (fun o => o != 7) (fun v => some (v + 6))
+    (rawPlan [⟨300, false, true, false⟩, ⟨300, false, true, false⟩, ⟨300, false, true, false⟩] 0 100) none).2.1 2
+      = some 102 := by decide
+
+example : (saveRunChecked true (fun o => o != 7) (fun v => some (v + 6))
+    (rawPlan [⟨300, false, true, false⟩, ⟨300, false, true, false⟩, ⟨300, false, true, false⟩] 0 100) none).2.2
+      = true := by decide
+
+/-- **C07_roundtrip_value_c04**: `C07_roundtrip_value` for tensors given by their element type
+    width and elements: `nbytes` is `TensorBase.nbytes = ceil(size * bitwidth / 8)` and the bytes are
+    the canonical packed little-endian `tobytes()` of C04.  The length hypothesis of
+    `C07_roundtrip_value` is discharged by `C04_nbytes`, not assumed. -/
+theorem C07_roundtrip_value_c04 (ts : List (Init × Nat × List Nat))
+    (hbw : ∀ x ∈ ts, x.2.1 = 2 ∨ x.2.1 = 4 ∨ x.2.1 % 8 = 0)
+    (hn : ∀ x ∈ ts, x.1.nbytes = IrVerif.Pack.nbytes x.2.2.length x.2.1)
+    (thr : Int) (maxShard : Option Nat) (al : Option Nat) (athr : Nat)
+    (k : Nat) (hk : k < ts.length)
+    (h1 : ts[k].1.hasConst = true) (h2 : ts[k].1.isString = false)
+    (h3 : (ts[k].1.nbytes : Int) > thr) :
+    ∃ p img, (unloadRaw (ts.map (·.1)) thr maxShard al athr)[k]? = some (.external p) ∧
+      (saveRawFiles (ts.map fun x => (x.1, IrVerif.Pack.tobytes x.2.1 x.2.2)) thr maxShard al athr none)[p.shard]?
+        = some img ∧
+      readAt img p.offset p.length = IrVerif.Pack.tobytes ts[k].2.1 ts[k].2.2 := by
+  have hlen : ∀ x ∈ ts.map (fun x => (x.1, IrVerif.Pack.tobytes x.2.1 x.2.2)), x.1.nbytes = x.2.length := by
+    intro x hx
+    simp only [List.mem_map] at hx
+    obtain ⟨y, hy, rfl⟩ := hx
+    simp only
+    rw [hn y hy, IrVerif.Pack.C04_nbytes _ _ (hbw y hy)]
+  have := C07_roundtrip_value (ts.map fun x => (x.1, IrVerif.Pack.tobytes x.2.1 x.2.2)) hlen thr maxShard al athr
+    k (by simpa using hk) (by simpa using h1) (by simpa using h2) (by simpa using h3)
+  simpa [List.map_map, Function.comp_def] using this
+
+/-- **C07_readback_shared**: initializers given by the tensor OBJECT they hold (`ids`; `obj` maps an
+    object to its bytes).  Every position above the threshold gets its own record and reads back
+    the bytes of its object — so two initializers sharing one tensor object (in one graph or in
+    the main graph and a subgraph, under any names: the raw backend is positional) both read that
+    object's bytes, from two different ranges. -/
+theorem C07_readback_shared (flags : List Init) (ids : List Nat) (obj : Nat → List Nat)
+    (hlen : flags.length = ids.length)
+    (hn : ∀ x ∈ flags.zip ids, x.1.nbytes = (obj x.2).length)
+    (thr : Int) (maxShard : Option Nat) (al : Option Nat) (athr : Nat)
+    (k : Nat) (hk : k < flags.length)
+    (h1 : flags[k].hasConst = true) (h2 : flags[k].isString = false)
+    (h3 : (flags[k].nbytes : Int) > thr) :
+    ∃ p img, (unloadRaw flags thr maxShard al athr)[k]? = some (.external p) ∧
+      (saveRawFiles (flags.zip (bytesOfObjects obj ids)) thr maxShard al athr none)[p.shard]? = some img ∧
+      readAt img p.offset p.length = obj (ids[k]'(by omega)) := by
+  have hl : ∀ x ∈ flags.zip (bytesOfObjects obj ids), x.1.nbytes = x.2.length := by
+    intro x hx
+    simp only [bytesOfObjects, List.zip_map_right, List.mem_map] at hx
+    obtain ⟨y, hy, rfl⟩ := hx
+    exact hn y hy
+  have hmap : (flags.zip (bytesOfObjects obj ids)).map (·.1) = flags := by
+    rw [List.map_fst_zip]; simp [bytesOfObjects]; omega
+  have hkz : k < (flags.zip (bytesOfObjects obj ids)).length := by
+    simp [bytesOfObjects, List.length_zip]; omega
+  have hget : (flags.zip (bytesOfObjects obj ids))[k] = (flags[k], obj (ids[k]'(by omega))) := by
+    simp [bytesOfObjects, List.getElem_zip]
+  have := C07_roundtrip_value (flags.zip (bytesOfObjects obj ids)) hl thr maxShard al athr k hkz
+    (by rw [hget]; exact h1) (by rw [hget]; exact h2) (by rw [hget]; exact h3)
+  rw [hmap, hget] at this
+  exact this
+
+theorem unloadRaw_length (vs : List Init) (thr : Int) (mx : Option Nat) (al : Option Nat) (athr : Nat) :
+    (unloadRaw vs thr mx al athr).length = vs.length := by
+  simp [unloadRaw, assignZip_length]
+
+/-- **C07_rawBackend_ok**: the raw backend (`ir.save(external_data=)` / `unload_from_model`, any
+    threshold, shard limit, alignment) delivers what `C07_sequence_preserves` asks of a backend:
+    one reference per initializer, and with the written files in place every reference reads
+    its initializer's bytes (from `C07_roundtrip_value` and `C07_threshold`). -/
+theorem C07_rawBackend_ok (base : Nat) (thr : Int) (mx : Option Nat) (al : Option Nat) (athr : Nat) :
+    (rawBackend base thr mx al athr).Ok := by
+  intro refs vals fs hl
+  have hvbl : (rawVB refs vals).length = vals.length := by simp [rawVB, hl]
+  have hvbk : ∀ k (hk : k < vals.length), (rawVB refs vals)[k]'(by omega) =
+      (({ nbytes := vals[k].length, isExternal := (refs[k]'(by omega)).isExt } : Init), vals[k]) := by
+    intro k hk; simp [rawVB]
+  have hlenvb : ∀ x ∈ rawVB refs vals, x.1.nbytes = x.2.length := by
+    intro x hx
+    obtain ⟨k, hk, rfl⟩ := List.getElem_of_mem hx
+    rw [hvbk k (by omega)]
+  have hcl : (unloadRaw ((rawVB refs vals).map (·.1)) thr mx al athr).length = vals.length := by
+    rw [unloadRaw_length]; simpa using hvbl
+  refine ⟨by simp [rawBackend, hcl], ?_⟩
+  intro k hk
+  have hkc : k < (unloadRaw ((rawVB refs vals).map (·.1)) thr mx al athr).length := by omega
+  have hrk : (rawBackend base thr mx al athr refs vals).refs[k]? = some
+      (match (unloadRaw ((rawVB refs vals).map (·.1)) thr mx al athr)[k] with
+        | .external p => Ref.ext (base, p.shard,
+            (saveRawFiles (rawVB refs vals) thr mx al athr none).length) p.offset p.length
+        | _ => Ref.inline vals[k]) := by
+    simp only [rawBackend]
+    rw [List.getElem?_eq_getElem (by simp [hcl]; omega), List.getElem_zipWith]
+    rfl
+  have hk' : k < ((rawVB refs vals).map (·.1)).length := by simpa using (by omega : k < (rawVB refs vals).length)
+  have hinit : ((rawVB refs vals).map (·.1))[k] =
+      ({ nbytes := vals[k].length, isExternal := (refs[k]'(by omega)).isExt } : Init) := by
+    simp [hvbk k hk]
+  by_cases hbig : ((vals[k].length : Nat) : Int) > thr
+  · obtain ⟨p, img, hc, hf, hread⟩ := C07_roundtrip_value (rawVB refs vals) hlenvb thr mx al athr k
+      (by omega) (by rw [hvbk k hk]) (by rw [hvbk k hk]) (by rw [hvbk k hk]; exact hbig)
+    rw [hvbk k hk] at hread
+    have hck : (unloadRaw ((rawVB refs vals).map (·.1)) thr mx al athr)[k] = .external p := by
+      rw [List.getElem?_eq_getElem hkc] at hc; exact Option.some.inj hc
+    rw [hck] at hrk
+    refine ⟨_, hrk, by simp, ?_⟩
+    have := installFiles_zipIdx fs base (saveRawFiles (rawVB refs vals) thr mx al athr none).length
+      (saveRawFiles (rawVB refs vals) thr mx al athr none) 0 p.shard (Nat.zero_le _)
+    simp only [Nat.sub_zero, hf] at this
+    simp only [Ref.value, rawBackend, keyedFiles]
+    rw [this]
+    simp [hread]
+  · have hthr := C07_threshold ((rawVB refs vals).map (·.1)) thr mx al athr k hk'
+    have hnot : (unloadRaw ((rawVB refs vals).map (·.1)) thr mx al athr)[k] = .memory ∨
+        (unloadRaw ((rawVB refs vals).map (·.1)) thr mx al athr)[k] = .same := by
+      by_cases he : (refs[k]'(by omega)).isExt = true
+      · left
+        have := hthr.2.2.1 (by rw [hinit]) (by rw [hinit]) (by rw [hinit]; simp only; omega)
+          (by rw [hinit]; exact he)
+        rw [List.getElem?_eq_getElem hkc] at this; exact Option.some.inj this
+      · right
+        have := hthr.2.2.2 (Or.inr (Or.inr ⟨by rw [hinit]; simp only; omega, by rw [hinit]; simpa using he⟩))
+        rw [List.getElem?_eq_getElem hkc] at this; exact Option.some.inj this
+    rcases hnot with h | h <;> rw [h] at hrk <;> exact ⟨_, hrk, by simp, by simp [Ref.value]⟩
+
+-- the sequence model on a concrete history: save (threshold 1), load, save again onto the SAME
+-- file with a higher threshold, load: every initializer reads its value; the first loaded model's
+-- external reference is stale after the second save
+example :
+    let s0 : SeqState FileKey := { fs := fun _ => none, mem := [.inline [1, 2, 3], .inline [4]], disk := none }
+    ((seqRun s0 [.save (rawBackend 0 1 none none 0), .load, .save (rawBackend 0 5 none none 0)]).map
+        (·.mem)) = some [.stale, .inline [4]] ∧
+    ((seqRun s0 [.save (rawBackend 0 1 none none 0), .load, .save (rawBackend 0 5 none none 0), .load]).map
+        fun s => s.mem.map (Ref.value s.fs)) = some [some [1, 2, 3], some [4]] := by
+  decide
+
+section Seq
+variable {κ : Type} [DecidableEq κ]
+
+/-- **C07_sequence_preserves**: for ANY sequence of `ir.save` / `save_safetensors` (any backend
+    parameters, any destination, also onto the files the model's own tensors live in),
+    `unload_from_model`, `ir.load`, `load_to_model` and `convert_tensors_from_external` calls that
+    runs to the end (no call was handed a tensor that cannot be read), started from a model whose
+    initializers hold the values `V`: every reference of the caller's model and of the saved
+    proto is either STALE (it points into a data file that a later save replaced: the documented
+    "use load to obtain a valid model") or reads exactly the value of its initializer.  The
+    backends enter through `Backend.Ok`, which `C07_rawBackend_ok` proves for the raw backend. -/
+theorem C07_sequence_preserves (V : List (List Nat)) (ops : List (SeqOp κ)) (s0 s : SeqState κ)
+    (hops : ∀ op ∈ ops, op.BackendOk) (h0 : SeqInv V s0) (hrun : seqRun s0 ops = some s) :
+    SeqInv V s := by
+  induction ops generalizing s0 with
+  | nil => simp only [seqRun] at hrun; exact (Option.some.inj hrun) ▸ h0
+  | cons op rest ih =>
+    simp only [seqRun, Option.bind_eq_some_iff] at hrun
+    obtain ⟨s1, hs1, hrest⟩ := hrun
+    exact ih s1 (fun o ho => hops o (List.mem_cons_of_mem _ ho))
+      (seqStep_inv V s0 s1 op (hops op (List.mem_cons_self ..)) h0 hs1) hrest
+
+/-- the start: a model whose initializers are all in memory -/
+theorem C07_sequence_init (V : List (List Nat)) (fs : FS κ) :
+    SeqInv V ({ fs := fs, mem := V.map Ref.inline, disk := none } : SeqState κ) := by
+  refine ⟨⟨by simp, ?_⟩, by intro refs h; cases h⟩
+  intro k r hr
+  rw [List.getElem?_map] at hr
+  cases hk : V[k]? with
+  | none => rw [hk] at hr; cases hr
+  | some x =>
+    rw [hk] at hr
+    have : r = .inline x := (Option.some.inj hr).symm
+    subst this; right; rfl
+
+/-- **C07_sequence_save_load**: whatever happened before, a save that runs to the end followed by
+    `ir.load` yields a model in which NO reference is stale and every initializer reads its
+    original value. -/
+theorem C07_sequence_save_load (V : List (List Nat)) (ops : List (SeqOp κ)) (b : Backend κ) (hb : b.Ok)
+    (s0 s : SeqState κ) (hops : ∀ op ∈ ops, op.BackendOk) (h0 : SeqInv V s0)
+    (hrun : seqRun s0 (ops ++ [.save b, .load]) = some s) :
+    s.mem.length = V.length ∧ ∀ k (hk : k < V.length), ∃ r, s.mem[k]? = some r ∧ r ≠ .stale ∧
+      r.value s.fs = some V[k] := by
+  have hsplit : ∀ (ops : List (SeqOp κ)) (s0 : SeqState κ), seqRun s0 (ops ++ [.save b, .load]) = some s →
+      ∃ s1, seqRun s0 ops = some s1 ∧ seqRun s1 [.save b, .load] = some s := by
+    intro ops
+    induction ops with
+    | nil => intro s0 h; exact ⟨s0, rfl, h⟩
+    | cons op rest ih =>
+      intro s0 h
+      rw [List.cons_append] at h
+      simp only [seqRun, Option.bind_eq_some_iff] at h
+      obtain ⟨s', hs', hr⟩ := h
+      obtain ⟨s1, h1, h2⟩ := ih s' hr
+      refine ⟨s1, ?_, h2⟩
+      simp only [seqRun, Option.bind_eq_some_iff]
+      exact ⟨s', hs', h1⟩
+  obtain ⟨s1, h1, h2⟩ := hsplit ops s0 hrun
+  have hinv1 := C07_sequence_preserves V ops s0 s1 hops h0 h1
+  simp only [seqRun, seqStep, Option.bind_eq_some_iff, Option.map_eq_some_iff] at h2
+  obtain ⟨s2, ⟨vals, hvals, rfl⟩, s3, ⟨refs, hrefs, rfl⟩, hfin⟩ := h2
+  have hv := readAll_eq V s1.fs s1.mem hinv1.1 vals hvals
+  subst hv
+  have : s = _ := (Option.some.inj hfin).symm
+  subst this
+  have hrefs' : refs = (b s1.mem vals).refs := (Option.some.inj hrefs).symm
+  subst hrefs'
+  have hok := hb s1.mem vals s1.fs hinv1.1.1
+  exact ⟨hok.1, hok.2⟩
+
+end Seq
 
 end IrVerif.Layout
